@@ -4,7 +4,11 @@
     * a small reader for runs of CDATA sections (XML 1.0 §2.7) and `readIn (cdataText s ++ "]]>") = s`;
     * text children: what `xml_encode_text` appends is independent of the output so far and of
       compact / indented generation; explicit bytes of `xml_encode_tag` and of the attribute list;
-    * the tree builder never puts a CDATA frame directly on a CDATA frame.
+    * the tree builder never puts a CDATA frame directly on a CDATA frame (`stackOk`);
+    * since fix eb6f4c7 (`wbxml_tree_clb_wbxml_start_element` leaves a current CDATA node first): a CDATA
+      frame is only ever the top of the stack, on an element frame (`cdataOnlyOnTop`), and no CDATA
+      node of the built tree has an element or CDATA child (`Node.noMarkupInCdata`, `CdInv`,
+      `treeOfWbxml_noMarkup`).
 -/
 import Wbxml.Model.EncXml
 import Wbxml.Spec.XmlText
@@ -236,11 +240,46 @@ def kindsOk : List FrameKind → Bool
 
 def stackOk (b : BState) : Bool := kindsOk (b.stack.map (·.kind))
 
+/-- Only element frames. -/
+def allEltKinds (l : List FrameKind) : Bool := l.all (fun k => !isCdataKind k)
+
+/-- A CDATA frame occurs only as the top of the stack (innermost first), and then the frames
+    below it are element frames, at least one. -/
+def cdataTopKinds : List FrameKind → Bool
+  | [] => true
+  | .elt _ _ :: r => allEltKinds r
+  | .cdata :: r => !r.isEmpty && allEltKinds r
+
+/-- Every CDATA frame is the top of the stack and sits on an element frame; everything below the
+    top is an element frame. -/
+def cdataOnlyOnTop (b : BState) : Bool := cdataTopKinds (b.stack.map (·.kind))
+
+/-- The frame kinds after `BState.leaveCdata`. -/
+def leaveKinds : List FrameKind → List FrameKind
+  | .cdata :: g :: rest => g :: rest
+  | l => l
+
 theorem attach_kinds (b : BState) (n : Node) : (b.attach n).stack.map (·.kind) = b.stack.map (·.kind) := by
   unfold BState.attach
   split
   · rename_i f rest h; simp [h]
   · split <;> simp_all
+
+theorem leaveCdata_kinds (b : BState) :
+    b.leaveCdata.stack.map (·.kind) = leaveKinds (b.stack.map (·.kind)) := by
+  unfold BState.leaveCdata
+  split
+  · rename_i f g rest hs
+    split
+    · rename_i hk; simp [hs, hk, leaveKinds]
+    · rename_i n a hk; simp [hs, hk, leaveKinds]
+  · rename_i hne
+    cases hs : b.stack with
+    | nil => rfl
+    | cons f r =>
+      cases r with
+      | nil => cases hk : f.kind <;> simp [hk, leaveKinds]
+      | cons g r' => exact absurd hs (hne f g r')
 
 theorem kindsOk_tail (a : FrameKind) (l : List FrameKind) (h : kindsOk (a :: l) = true) : kindsOk l = true := by
   cases l with
@@ -253,6 +292,11 @@ theorem kindsOk_push_elt (n : Name) (a : List Attr) (l : List FrameKind) (h : ki
   | nil => rfl
   | cons b r => simp [kindsOk, isCdataKind, h]
 
+theorem kindsOk_leave (l : List FrameKind) (h : kindsOk l = true) : kindsOk (leaveKinds l) = true := by
+  fun_cases leaveKinds l
+  · exact kindsOk_tail _ _ h
+  · exact h
+
 theorem buildStep_stackOk (main : List Lang) (emb : Nat → Bytes → Option Tree) (b : BState) (e : Event)
     (h : stackOk b = true) : stackOk (buildStep main emb b e) = true := by
   unfold stackOk at h ⊢
@@ -264,10 +308,12 @@ theorem buildStep_stackOk (main : List Lang) (emb : Nat → Bytes → Option Tre
     | endDoc => exact h
     | pi t d => exact h
     | startElt n attrs =>
+      have hl : kindsOk (b.leaveCdata.stack.map (·.kind)) = true := by
+        rw [leaveCdata_kinds]; exact kindsOk_leave _ h
       simp only
       split
-      · exact h
-      · simp only [List.map_cons]; exact kindsOk_push_elt _ _ _ h
+      · exact hl
+      · simp only [List.map_cons]; exact kindsOk_push_elt _ _ _ hl
     | endElt n =>
       simp only
       split
@@ -300,5 +346,427 @@ theorem buildStep_stackOk (main : List Lang) (emb : Nat → Bytes → Option Tre
             | cdata => exact absurd hf (by simpa using hk)
             | elt n a => rfl
         · simp only [attach_kinds]; exact h
+
+/-! #### A CDATA frame is always the top of the stack (after fix eb6f4c7) -/
+
+theorem allElt_cdataTop (l : List FrameKind) (h : allEltKinds l = true) : cdataTopKinds l = true := by
+  cases l with
+  | nil => rfl
+  | cons k r =>
+    cases k with
+    | elt n a => simpa [cdataTopKinds, allEltKinds, isCdataKind] using h
+    | cdata => simp [allEltKinds, isCdataKind] at h
+
+/-- Whatever the top frame is, the frames below it are element frames. -/
+theorem cdataTop_tail (k : FrameKind) (r : List FrameKind) (h : cdataTopKinds (k :: r) = true) :
+    allEltKinds r = true := by
+  cases k with
+  | elt n a => exact h
+  | cdata => simp only [cdataTopKinds, Bool.and_eq_true] at h; exact h.2
+
+theorem cdataTop_leave (l : List FrameKind) (h : cdataTopKinds l = true) : allEltKinds (leaveKinds l) = true := by
+  fun_cases leaveKinds l
+  · exact cdataTop_tail _ _ h
+  · rename_i hne
+    cases l with
+    | nil => rfl
+    | cons k r =>
+      cases k with
+      | elt n a => simpa [cdataTopKinds, allEltKinds, isCdataKind] using h
+      | cdata =>
+        cases r with
+        | nil => simp [cdataTopKinds] at h
+        | cons g r' => exact absurd rfl (hne g r')
+
+theorem cdataTop_push_cdata (k : FrameKind) (r : List FrameKind) (hk : isCdataKind k = false)
+    (h : cdataTopKinds (k :: r) = true) : cdataTopKinds (.cdata :: k :: r) = true := by
+  have ht := cdataTop_tail k r h
+  simp only [cdataTopKinds, allEltKinds, List.all_cons, hk, List.isEmpty_cons] 
+  simpa [allEltKinds] using ht
+
+theorem leaveCdata_allElt (b : BState) (h : cdataOnlyOnTop b = true) :
+    allEltKinds (b.leaveCdata.stack.map (·.kind)) = true := by
+  rw [leaveCdata_kinds]; exact cdataTop_leave _ h
+
+theorem buildStep_cdataOnlyOnTop (main : List Lang) (emb : Nat → Bytes → Option Tree) (b : BState) (e : Event)
+    (h : cdataOnlyOnTop b = true) : cdataOnlyOnTop (buildStep main emb b e) = true := by
+  unfold cdataOnlyOnTop at h ⊢
+  unfold buildStep
+  split
+  · exact h
+  · cases e with
+    | startDoc cs l => exact h
+    | endDoc => exact h
+    | pi t d => exact h
+    | startElt n attrs =>
+      have hl := leaveCdata_allElt b h
+      simp only
+      split
+      · exact allElt_cdataTop _ hl
+      · simp only [List.map_cons]; exact hl
+    | endElt n =>
+      simp only
+      split
+      · exact h
+      · rename_i f rest hs
+        rw [hs] at h
+        simp only [List.map_cons] at h
+        split
+        · split
+          · rename_i g rest'
+            simp only [attach_kinds]
+            exact allElt_cdataTop _ (cdataTop_tail _ _ (allElt_cdataTop _ (cdataTop_tail _ _ h)))
+          · exact (by rw [hs]; simpa using h)
+        · simp only [attach_kinds]; exact allElt_cdataTop _ (cdataTop_tail _ _ h)
+    | chars s =>
+      simp only
+      split
+      · split <;> simp only [attach_kinds] <;> exact h
+      · simp only [attach_kinds]; exact h
+      · split
+        · rename_i f rest hs
+          split
+          · simp only [attach_kinds]; exact h
+          · rename_i hk
+            simp only [attach_kinds, List.map_cons]
+            rw [hs] at h ⊢
+            simp only [List.map_cons] at h ⊢
+            refine cdataTop_push_cdata _ _ ?_ h
+            cases hf : f.kind with
+            | cdata => exact absurd hf (by simpa using hk)
+            | elt n a => rfl
+        · simp only [attach_kinds]; exact h
+
+theorem foldl_cdataOnlyOnTop (main : List Lang) (emb : Nat → Bytes → Option Tree) (events : List Event) :
+    ∀ (b : BState), cdataOnlyOnTop b = true → cdataOnlyOnTop (events.foldl (buildStep main emb) b) = true := by
+  induction events with
+  | nil => intro b h; exact h
+  | cons e rest ih => intro b h; exact ih _ (buildStep_cdataOnlyOnTop main emb b e h)
+
+/-- What `cdataOnlyOnTop` says, frame by frame. -/
+theorem cdataOnlyOnTop_iff (b : BState) :
+    cdataOnlyOnTop b = true ↔
+      (∀ f ∈ b.stack.tail, isCdataKind f.kind = false) ∧ (∀ f, b.stack = [f] → isCdataKind f.kind = false) := by
+  unfold cdataOnlyOnTop
+  cases hs : b.stack with
+  | nil => simp [cdataTopKinds]
+  | cons f r =>
+    cases hk : f.kind with
+    | elt n a =>
+      simp only [List.map_cons, hk, cdataTopKinds, allEltKinds, List.all_map, List.all_eq_true, List.tail_cons,
+        List.cons.injEq]
+      constructor
+      · intro h
+        refine ⟨fun g hg => by simpa using h g hg, ?_⟩
+        rintro g ⟨rfl, _⟩; simp [hk, isCdataKind]
+      · intro h g hg; simpa using h.1 g hg
+    | cdata =>
+      simp only [List.map_cons, hk, cdataTopKinds, allEltKinds, List.all_map, Bool.and_eq_true, List.all_eq_true,
+        List.tail_cons, List.cons.injEq]
+      constructor
+      · rintro ⟨hne, h⟩
+        refine ⟨fun g hg => by simpa using h g hg, ?_⟩
+        rintro g ⟨rfl, hr⟩
+        subst hr; simp at hne
+      · intro h
+        refine ⟨?_, fun g hg => by simpa using h.1 g hg⟩
+        cases r with
+        | nil => have := h.2 f ⟨rfl, rfl⟩; simp [hk, isCdataKind] at this
+        | cons g r' => simp
+
+/-- At most one open CDATA section at any time. -/
+theorem cdataOnlyOnTop_count (b : BState) (h : cdataOnlyOnTop b = true) :
+    (b.stack.filter (fun f => isCdataKind f.kind)).length ≤ 1 := by
+  have hz : ∀ (l : List Frame), allEltKinds (l.map (·.kind)) = true →
+      l.filter (fun f => isCdataKind f.kind) = [] := by
+    intro l hl
+    simp only [allEltKinds, List.all_map, List.all_eq_true] at hl
+    rw [List.filter_eq_nil_iff]
+    intro f hf
+    simpa using hl f hf
+  unfold cdataOnlyOnTop at h
+  cases hs : b.stack with
+  | nil => simp
+  | cons f r =>
+    rw [hs] at h
+    simp only [List.map_cons] at h
+    have := hz r (cdataTop_tail _ _ h)
+    rw [List.filter_cons]
+    split <;> simp [this]
+
+/-! #### No markup inside CDATA nodes -/
+
+end Wbxml.Lemmas.XmlPrint
+
+namespace Wbxml.Model
+
+/-- Character data: a text node or an embedded document (printed as text of its own). -/
+def Node.isCharData : Node → Bool
+  | .text _ => true
+  | .tree _ _ _ => true
+  | _ => false
+
+mutual
+/-- No CDATA node anywhere in the sub-tree (embedded documents included) has an element or a
+    CDATA node among its children. -/
+def Node.noMarkupInCdata : Node → Bool
+  | .elt _ _ kids => Node.noMarkupInCdataL kids
+  | .text _ => true
+  | .cdata kids => kids.all Node.isCharData && Node.noMarkupInCdataL kids
+  | .tree _ _ none => true
+  | .tree _ _ (some r) => r.noMarkupInCdata
+def Node.noMarkupInCdataL : List Node → Bool
+  | [] => true
+  | n :: r => n.noMarkupInCdata && Node.noMarkupInCdataL r
+end
+
+def Tree.noMarkupInCdata (t : Tree) : Bool :=
+  match t.root with
+  | none => true
+  | some r => r.noMarkupInCdata
+
+end Wbxml.Model
+
+namespace Wbxml.Lemmas.XmlPrint
+open Wbxml Wbxml.Model Wbxml.Spec
+
+theorem noMarkupInCdataL_eq (l : List Node) : Node.noMarkupInCdataL l = l.all Node.noMarkupInCdata := by
+  induction l with
+  | nil => rfl
+  | cons a r ih => simp [Node.noMarkupInCdataL, ih]
+
+/-- The children of a CDATA node are text nodes and embedded documents. -/
+theorem cdata_kids_charData (kids : List Node) (h : (Node.cdata kids).noMarkupInCdata = true) :
+    ∀ k ∈ kids, (∃ s, k = .text s) ∨ (∃ l c r, k = .tree l c r) := by
+  simp only [Node.noMarkupInCdata, Bool.and_eq_true, List.all_eq_true] at h
+  intro k hk
+  have := h.1 k hk
+  cases k with
+  | text s => exact Or.inl ⟨s, rfl⟩
+  | tree l c r => exact Or.inr ⟨l, c, r, rfl⟩
+  | elt n a ks => simp [Node.isCharData] at this
+  | cdata ks => simp [Node.isCharData] at this
+
+/-- An open frame whose children are fine and, for a CDATA frame, character data. -/
+def frameOk (f : Frame) : Bool :=
+  Node.noMarkupInCdataL f.kids && (!isCdataKind f.kind || f.kids.all Node.isCharData)
+
+theorem close_ok (f : Frame) : f.close.noMarkupInCdata = frameOk f := by
+  unfold Frame.close frameOk
+  cases hk : f.kind with
+  | elt n a => simp [Node.noMarkupInCdata, isCdataKind]
+  | cdata => simp [Node.noMarkupInCdata, isCdataKind, Bool.and_comm]
+
+theorem addKid_all (p : Node → Bool) (hp : ∀ s, p (.text s) = true) (kids : List Node) (n : Node)
+    (hk : kids.all p = true) (hn : p n = true) : (addKid kids n).all p = true := by
+  unfold addKid
+  split
+  · simp only [List.all_append, List.all_cons, List.all_nil, hp, Bool.and_true]
+    rw [List.all_eq_true] at hk ⊢
+    intro x hx
+    exact hk x (List.dropLast_subset _ hx)
+  · simp [List.all_append, hk, hn]
+
+/-- The invariant of the WBXML tree builder as far as CDATA nodes are concerned. -/
+structure CdInv (b : BState) : Prop where
+  top : cdataOnlyOnTop b = true
+  frames : ∀ f ∈ b.stack, frameOk f = true
+  root : ∀ r, b.root = some r → r.noMarkupInCdata = true
+
+theorem cdInv_init : CdInv {} :=
+  { top := rfl, frames := fun _ h => absurd h List.not_mem_nil, root := fun _ h => by cases h }
+
+theorem frameOk_addKid (f : Frame) (n : Node) (hf : frameOk f = true) (hn : n.noMarkupInCdata = true)
+    (hc : n.isCharData = true ∨ isCdataKind f.kind = false) :
+    frameOk { f with kids := addKid f.kids n } = true := by
+  simp only [frameOk, Bool.and_eq_true, Bool.or_eq_true, Bool.not_eq_true'] at hf ⊢
+  refine ⟨?_, ?_⟩
+  · rw [noMarkupInCdataL_eq] at hf ⊢
+    exact addKid_all _ (fun _ => rfl) _ _ hf.1 hn
+  · rcases hc with hc | hc
+    · rcases hf.2 with h2 | h2
+      · exact Or.inl h2
+      · exact Or.inr (addKid_all _ (fun _ => rfl) _ _ h2 hc)
+    · exact Or.inl hc
+
+/-- Attaching a finished node: character data goes anywhere, anything else not into a CDATA frame. -/
+theorem attach_cdInv {b : BState} {n : Node} (h : CdInv b) (hn : n.noMarkupInCdata = true)
+    (hc : n.isCharData = true ∨ allEltKinds (b.stack.map (·.kind)) = true) : CdInv (b.attach n) := by
+  refine ⟨?_, ?_, ?_⟩
+  · unfold cdataOnlyOnTop; rw [attach_kinds]; exact h.top
+  · unfold BState.attach
+    split
+    · rename_i f rest hs
+      intro g hg
+      simp only [List.mem_cons] at hg
+      rcases hg with hg | hg
+      · rw [hg]
+        refine frameOk_addKid f n (h.frames f (by rw [hs]; simp)) hn ?_
+        rcases hc with hc | hc
+        · exact Or.inl hc
+        · rw [hs] at hc
+          simp only [List.map_cons, allEltKinds, List.all_cons, Bool.and_eq_true, Bool.not_eq_true'] at hc
+          exact Or.inr hc.1
+      · exact h.frames g (by rw [hs]; simp [hg])
+    · split
+      · exact h.frames
+      · exact h.frames
+  · unfold BState.attach
+    split
+    · exact h.root
+    · split
+      · intro r hr
+        simp only [Option.some.injEq] at hr
+        exact hr ▸ hn
+      · exact h.root
+
+/-- Taking the top frame off: the invariant holds below, only element frames remain, and the frame
+    closes into a fine node. -/
+theorem pop_cdInv {b : BState} {f : Frame} {rest : List Frame} (h : CdInv b) (hs : b.stack = f :: rest) :
+    CdInv { b with stack := rest } ∧ allEltKinds (rest.map (·.kind)) = true ∧ f.close.noMarkupInCdata = true := by
+  have ht : allEltKinds (rest.map (·.kind)) = true := by
+    have := h.top
+    unfold cdataOnlyOnTop at this
+    rw [hs] at this
+    exact cdataTop_tail _ _ this
+  refine ⟨⟨allElt_cdataTop _ ht, ?_, h.root⟩, ht, ?_⟩
+  · intro g hg
+    exact h.frames g (by rw [hs]; exact List.mem_cons_of_mem _ hg)
+  · rw [close_ok]; exact h.frames f (by rw [hs]; simp)
+
+theorem popAttach_cdInv {b : BState} {f : Frame} {rest : List Frame} (h : CdInv b) (hs : b.stack = f :: rest) :
+    CdInv (({ b with stack := rest } : BState).attach f.close) := by
+  obtain ⟨h1, h2, h3⟩ := pop_cdInv h hs
+  exact attach_cdInv h1 h3 (Or.inr h2)
+
+theorem leaveCdata_cases (b : BState) :
+    b.leaveCdata = b ∨ ∃ f rest, b.stack = f :: rest ∧ b.leaveCdata = ({ b with stack := rest } : BState).attach f.close := by
+  unfold BState.leaveCdata
+  split
+  · rename_i f g rest hs
+    split
+    · exact Or.inr ⟨f, g :: rest, hs, rfl⟩
+    · exact Or.inl rfl
+  · exact Or.inl rfl
+
+theorem leaveCdata_cdInv {b : BState} (h : CdInv b) : CdInv b.leaveCdata := by
+  rcases leaveCdata_cases b with he | ⟨f, rest, hs, he⟩
+  · rw [he]; exact h
+  · rw [he]; exact popAttach_cdInv h hs
+
+theorem push_cdInv {b : BState} (h : CdInv b) (k : FrameKind) (hk : cdataTopKinds (k :: b.stack.map (·.kind)) = true) :
+    CdInv { b with stack := { kind := k, kids := [] } :: b.stack } := by
+  refine ⟨hk, ?_, h.root⟩
+  intro g hg
+  simp only [List.mem_cons] at hg
+  rcases hg with hg | hg
+  · rw [hg]; simp [frameOk, Node.noMarkupInCdataL]
+  · exact h.frames g hg
+
+/-- What the embedded-document parser hands back has no markup inside CDATA nodes. -/
+def EmbOk (emb : Nat → Bytes → Option Tree) : Prop := ∀ cs s t, emb cs s = some t → t.noMarkupInCdata = true
+
+theorem tree_node_ok (t : Tree) (h : t.noMarkupInCdata = true) :
+    (Node.tree t.lang t.origCharset t.root).noMarkupInCdata = true := by
+  unfold Tree.noMarkupInCdata at h
+  cases hr : t.root with
+  | none => rfl
+  | some r => rw [hr] at h; simpa [Node.noMarkupInCdata] using h
+
+theorem tree_mk_ok (l : Option Lang) (c : Nat) (r : Option Node) (h : ∀ x, r = some x → x.noMarkupInCdata = true) :
+    ({ lang := l, origCharset := c, root := r } : Tree).noMarkupInCdata = true := by
+  cases r with
+  | none => rfl
+  | some x => exact h x rfl
+
+theorem buildStep_cdInv (main : List Lang) (emb : Nat → Bytes → Option Tree) (hemb : EmbOk emb) (b : BState)
+    (e : Event) (h : CdInv b) : CdInv (buildStep main emb b e) := by
+  have htext : ∀ (b' : BState) (s : Bytes), CdInv b' → CdInv (b'.attach (.text s)) :=
+    fun b' s h' => attach_cdInv h' rfl (Or.inl rfl)
+  unfold buildStep
+  split
+  · exact h
+  · cases e with
+    | startDoc cs l => exact ⟨h.top, h.frames, h.root⟩
+    | endDoc => exact h
+    | pi t d => exact h
+    | startElt n attrs =>
+      have hl := leaveCdata_cdInv h
+      have ha := leaveCdata_allElt b h.top
+      simp only
+      split
+      · exact ⟨hl.top, hl.frames, hl.root⟩
+      · exact push_cdInv hl (.elt n attrs) ha
+    | endElt n =>
+      simp only
+      split
+      · exact ⟨h.top, h.frames, h.root⟩
+      · rename_i f rest hs
+        split
+        · split
+          · rename_i g rest'
+            -- leave the CDATA section …
+            have h1 : CdInv (({ b with stack := g :: rest' } : BState).attach f.close) := popAttach_cdInv h hs
+            -- … then the element
+            exact popAttach_cdInv (b := ({ b with stack := g :: rest' } : BState).attach f.close)
+              (f := { g with kids := addKid g.kids f.close }) (rest := rest') h1 rfl
+          · exact ⟨h.top, h.frames, h.root⟩
+        · exact popAttach_cdInv h hs
+    | chars s =>
+      simp only
+      split
+      · split
+        · rename_i t ht
+          exact attach_cdInv h (tree_node_ok t (hemb _ _ _ ht)) (Or.inl rfl)
+        · exact htext _ _ h
+      · exact htext _ _ h
+      · split
+        · rename_i f rest hs
+          split
+          · exact htext _ _ h
+          · rename_i hk
+            refine htext _ _ (push_cdInv h .cdata ?_)
+            have ht := h.top
+            unfold cdataOnlyOnTop at ht
+            rw [hs] at ht ⊢
+            simp only [List.map_cons] at ht ⊢
+            refine cdataTop_push_cdata _ _ ?_ ht
+            cases hf : f.kind with
+            | cdata => exact absurd hf (by simpa using hk)
+            | elt n a => rfl
+        · exact htext _ _ h
+
+theorem foldl_cdInv (main : List Lang) (emb : Nat → Bytes → Option Tree) (hemb : EmbOk emb) (events : List Event) :
+    ∀ (b : BState), CdInv b → CdInv (events.foldl (buildStep main emb) b) := by
+  induction events with
+  | nil => intro b h; exact h
+  | cons e rest ih => intro b h; exact ih _ (buildStep_cdInv main emb hemb b e h)
+
+/-- `wbxml_tree_from_wbxml`: in the tree it returns (embedded documents included) no CDATA node has
+    an element or a CDATA node among its children. -/
+theorem treeOfWbxml_noMarkup (main : List Lang) : ∀ (f lang cs : Nat) (bs : Bytes) (t : Tree),
+    treeOfWbxml main f lang cs bs = .ok t → t.noMarkupInCdata = true
+  | 0, _, _, _, _, h => by simp [treeOfWbxml] at h
+  | f + 1, lang, cs, bs, t, h => by
+    rw [treeOfWbxml] at h
+    have hemb : EmbOk (fun (cs : Nat) (bs : Bytes) =>
+        match treeOfWbxml main f 0 cs bs with
+        | .ok t => some t
+        | .error _ => none) := by
+      intro cs' s t' ht
+      dsimp only at ht
+      split at ht
+      · rename_i t'' h''
+        cases ht
+        exact treeOfWbxml_noMarkup main f 0 cs' s _ h''
+      · cases ht
+    have hinv := foldl_cdInv main _ hemb
+      (parse { main := main, langForced := lang, metaCharset := cs } bs).events {} cdInv_init
+    split at h
+    · cases h
+    · split at h
+      · cases h
+      · cases h
+        exact tree_mk_ok _ _ _ hinv.root
 
 end Wbxml.Lemmas.XmlPrint
